@@ -6,6 +6,15 @@ PROPS = ["C%02d" % i for i in range(1, 20)]
 
 # property -> (technique, level text, design ref)
 CLAIMS = {
+ "C05": ("control-dependence (edge-dominance) rules over go/ssa: healthy-verdict guards, literal-shape ordering of Wound ranges, guard-token classification of wound emission sites, must-consume path rule for the aggregation loop",
+         "Decides structural necessary conditions, not the behaviour: a block is declared healthy only under index-in-range and strong-hash equality (both sibling validators); every FILE/CLOSED_FILE wound literal has Start <= End by construction; every deviation test the property enumerates (missing/kind/destination/open error/shorter/longer) controls a wound emission; the aggregator keeps, merges or forwards every incoming wound and flushes before close. That reported wounds cover every differing offset (block arithmetic) is NOT decided.",
+         "DESIGN.md 4 (C05)"),
+ "C06": ("set agreement (emitted vs handled wound kinds), error-classification rule over predicate call trees, case-region path rules (must-pass-through with edge filtering) over go/ssa",
+         "Decides structural necessary conditions, not the behaviour: every emitted wound kind has a healer case; Lstat/Readlink errors in the directory and symlink passes are returned only after testing both not-exist and not-a-directory; the DIR/SYMLINK/FILE repair cases perform their repair actions in the required order on every success path (Lstat before trusting a directory, remove before create, parent before link, mark before queue); the heal queue cannot block. That healed content equals the signed content and all validator/healer interleavings are NOT decided.",
+         "DESIGN.md 4 (C06)"),
+ "C09": ("must-pass-through / verdict-gating path rules, escape (who-may-touch) analysis of the wrapped reader, value-provenance rules for the position mirror, over go/ssa",
+         "Decides structural necessary conditions, not the behaviour: the wrapped reader is read only after validateBlock and only on its nil verdict; raw pool readers never escape the validating wrapper; validateBlock restores the saved position on every path after moving the reader; the wrapper's offset mirrors the wrapped reader's position at construction, Seek and Read. Which damage a given patch happens to read, and the EOF case of 64KiB-multiple files (F13, arithmetic), are NOT decided.",
+         "DESIGN.md 4 (C09)"),
  "C16": ("channel-protocol shape rules over go/ssa: per-path send counting (defers included), edge-dominance of loop exits by channel-closed tests, dominance ordering of the shutdown sequence, select-case control dependence",
          "Decides structural necessary conditions, not the behaviour: the consumer goroutine drains the wound channel until closed; worker and consumer each send exactly one result on every path; every result-receiving select case re-puts and closes 'cancelled', which is closed nowhere else; the shutdown sequence dominates the return in order; relay/aggregation goroutines exit only on close and always signal; the fail-fast consumer never returns nil from its cancellation case. These quantify over all paths of the protocol code, which no schedule sample can; full deadlock freedom over all interleavings is NOT decided.",
          "DESIGN.md 4 (C16)"),
